@@ -896,8 +896,25 @@ def persist_family(w, pid, corrupt, what, also=(), extra_modes=()):
     return sums, violations, known_hits, drift, st, tot
 
 
+def crash_mc(w, q):
+    """C11 at design level: Babble.tla with kills between two steps and restart with
+    bootstrap (BabbleCrash.tla): exhaustive for N = 1 (8 events, 2 crashes) and N = 2
+    (7 / 9 events, 1 crash), simulation for N = 3 (60 events, 4 crashes)"""
+    cfgs = [("crash1", "MC_crash1.cfg", 4, 300), ("crash2", "MC_crash2.cfg", 8, 600)]
+    if not q:
+        cfgs.append(("crash2t", "MC_crash2t.cfg", 12, 1500))
+    for name, cfg, workers, timeout in cfgs:
+        r = w.model_check(name, cfg, module="BabbleCrash.tla", workers=workers, timeout=timeout)
+        if r.get("violated"):
+            w.notes.append("spec-level: %s violated in %s (model only; not a verdict)" % (r["violated"], cfg))
+        log("  mc %-10s %s distinct=%s generated=%s depth=%s %.0fs%s" % (name, cfg, r.get("distinct"), r.get("generated"), r.get("depth"), r["wall_s"],
+                                                                    " TIMEOUT(bounded, incomplete)" if r.get("timeout") else ""))
+    run_sim(w, "crash3sim", "MC_crash3_sim.cfg", 2 if q else 12, 220, module="BabbleCrash.tla", workers=8, timeout=900)
+
+
 def plan_C11(w):
     q = Q(w)
+    crash_mc(w, q)
     dynk = [("dynRs%d" % i, dict(traces=2 if q else 4, n=0, steps=300 if q else 420, arg="restart", store="badger", cache=400)) for i in range(1 if q else 4)]
     sums, violations, known_hits, drift, st, tot = persist_family(
         w, "C11", c11_corrupt, "a block re-delivered by a bootstrap reported with another body digest", also=("C01", "C02", "C03", "C04"),
